@@ -6,6 +6,16 @@ pub enum Kind {
     Ask,
     Stop,
 }
+/// how a client calls: async method; blocking_* on a std thread (b), in spawn_blocking (s), directly
+/// inside an async task (i, timeout variants only); deprecated *_blocking alias on a std thread (d)
+#[derive(Debug, Clone, Copy, PartialEq)]
+pub enum Flavour {
+    Async,
+    BlockThread,
+    BlockSpawnBlocking,
+    BlockInside,
+    Deprecated,
+}
 #[derive(Debug, Clone, PartialEq)]
 pub enum HOut {
     Ok,
@@ -29,7 +39,7 @@ pub enum HItem {
 #[derive(Debug, Clone, PartialEq)]
 pub enum Action {
     Spawn { cap: usize, auto: bool },
-    Op { o: u64, k: Kind, slot: usize, tmo: Option<u64> },
+    Op { o: u64, k: Kind, slot: usize, tmo: Option<u64>, fl: Flavour },
     Kill { slot: usize },
     Clone { src: usize, dst: usize },
     Drop { slot: usize },
@@ -104,7 +114,16 @@ pub fn parse(text: &str) -> Vec<Action> {
         match w[0] {
             "feat" | "mode" => {}
             "spawn" => v.push(Action::Spawn { cap: n(1), auto: w[2] == "1" }),
-            "op" => v.push(Action::Op { o: n(1) as u64, k: kind(w[2]), slot: n(3), tmo: tmo(w[4]) }),
+            "op" => {
+                let fl = match w.get(5).copied() {
+                    Some("b") => Flavour::BlockThread,
+                    Some("s") => Flavour::BlockSpawnBlocking,
+                    Some("i") => Flavour::BlockInside,
+                    Some("d") => Flavour::Deprecated,
+                    _ => Flavour::Async,
+                };
+                v.push(Action::Op { o: n(1) as u64, k: kind(w[2]), slot: n(3), tmo: tmo(w[4]), fl })
+            }
             "kill" => v.push(Action::Kill { slot: n(1) }),
             "clone" => v.push(Action::Clone { src: n(1), dst: n(2) }),
             "drop" => v.push(Action::Drop { slot: n(1) }),
